@@ -25,14 +25,15 @@ inductive Act
   | finish (c : Nat)        -- handler chain consumed or rejected the connection: handle() closes it, wg.Done
   | pipeStart (c : Nat)     -- listenerHandler reached
   | pipeSend (c : Nat)      -- l.connChan <- conn succeeded; handle() returns errHijacked (no close), wg.Done
-  | consume                 -- wrapped listener's Accept takes from connChan
+  | consume (c : Nat)       -- wrapped listener's Accept takes c from connChan (any queued connection: the order in which
+                            -- concurrent senders entered the channel is not observable, so FIFO is over-approximated)
   | close                   -- listener.Close()
   | loopExit                -- inner Accept failed: spawn waiter, close(done)
-  | drain                   -- loop closes a remaining queued connection
+  | drain (c : Nat)         -- loop closes a remaining queued connection
   | closeChan               -- waiter: wg.Wait() returned, close(connChan)
 
 def step (s : St) : Act → Option St
-  | .accept c => if s.ph c = .idle ∧ !s.loopExited ∧ !s.innerClosed then
+  | .accept c => if s.ph c = .idle ∧ !s.loopExited then   -- an Accept that returned just before Close may be handled after it
       some { s with ph := upd s.ph c .handling, wg := s.wg + 1, active := c :: s.active } else none
   | .finish c => if s.ph c = .handling then
       some { s with ph := upd s.ph c .out, closed := upd s.closed c (s.closed c + 1), wg := s.wg - 1, active := s.active.erase c } else none
@@ -41,14 +42,12 @@ def step (s : St) : Act → Option St
       (if s.chanClosed then some { s with crashed := true }
        else if s.chan.length < s.cap then some { s with ph := upd s.ph c .queued, chan := s.chan ++ [c], wg := s.wg - 1, active := s.active.erase c } else none)
       else none
-  | .consume => match s.chan with
-    | c :: r => some { s with chan := r, ph := upd s.ph c .out, delivered := upd s.delivered c (s.delivered c + 1) }
-    | [] => none
+  | .consume c => if c ∈ s.chan then
+      some { s with chan := s.chan.erase c, ph := upd s.ph c .out, delivered := upd s.delivered c (s.delivered c + 1) } else none
   | .close => some { s with innerClosed := true }
-  | .loopExit => if s.innerClosed ∧ !s.loopExited then some { s with loopExited := true } else none
-  | .drain => if s.loopExited then match s.chan with
-      | c :: r => some { s with chan := r, ph := upd s.ph c .out, closed := upd s.closed c (s.closed c + 1) }
-      | [] => none else none
+  | .loopExit => if !s.loopExited then some { s with loopExited := true } else none   -- any non-temporary Accept error ends the loop
+  | .drain c => if s.loopExited ∧ c ∈ s.chan then
+      some { s with chan := s.chan.erase c, ph := upd s.ph c .out, closed := upd s.closed c (s.closed c + 1) } else none
   | .closeChan => if s.loopExited ∧ s.wg = 0 ∧ !s.chanClosed then some { s with chanClosed := true } else none
 
 def busy (s : St) (c : Nat) : Prop := s.ph c = .handling ∨ s.ph c = .piping
@@ -105,15 +104,13 @@ theorem inv_step (s s' : St) (a : Act) (h : LInv s) (hs : step s a = some s') : 
           constructor <;> simp only [upd, busy] at * <;> grind [List.Nodup.erase, List.Nodup.mem_erase_iff, List.nodup_append]
         · cases hs
     · cases hs
-  | consume =>
+  | consume c =>
     simp only [step] at hs
     split at hs
-    · rename_i c r hch
+    · rename_i hmem
       injection hs with hs; subst hs
-      have hq : s.ph c = .queued := (h4 c).mpr (by rw [hch]; simp)
-      have hnd : c ∉ r ∧ r.Nodup := by rw [hch] at h5; simpa using h5
-      have hsub : ∀ x, x ∈ s.chan ↔ x = c ∨ x ∈ r := by intro x; rw [hch]; simp
-      constructor <;> simp only [upd, busy] at * <;> grind
+      have hq : s.ph c = .queued := (h4 c).mpr hmem
+      constructor <;> simp only [upd, busy] at * <;> grind [List.Nodup.erase, List.Nodup.mem_erase_iff]
     · cases hs
   | close =>
     simp only [step] at hs
@@ -125,17 +122,13 @@ theorem inv_step (s s' : St) (a : Act) (h : LInv s) (hs : step s a = some s') : 
     · injection hs with hs; subst hs
       constructor <;> simp only [busy] at * <;> grind
     · cases hs
-  | drain =>
+  | drain c =>
     simp only [step] at hs
     split at hs
-    · split at hs
-      · rename_i c r hch
-        injection hs with hs; subst hs
-        have hq : s.ph c = .queued := (h4 c).mpr (by rw [hch]; simp)
-        have hnd : c ∉ r ∧ r.Nodup := by rw [hch] at h5; simpa using h5
-        have hsub : ∀ x, x ∈ s.chan ↔ x = c ∨ x ∈ r := by intro x; rw [hch]; simp
-        constructor <;> simp only [upd, busy] at * <;> grind
-      · cases hs
+    · rename_i hmem
+      injection hs with hs; subst hs
+      have hq : s.ph c = .queued := (h4 c).mpr hmem.2
+      constructor <;> simp only [upd, busy] at * <;> grind [List.Nodup.erase, List.Nodup.mem_erase_iff]
     · cases hs
   | closeChan =>
     simp only [step] at hs
